@@ -141,8 +141,8 @@ type Case struct {
 	FPLabels map[string]string `json:"fp_labels,omitempty"`
 	FPPairs  []PFH             `json:"fp_pairs,omitempty"`
 	FPDescr  string            `json:"fp_descr,omitempty"`
-	FPDescrH uint64            `json:"fp_descr_h,omitempty"`
-	FPOut    uint64            `json:"fp_out,omitempty"`
+	FPDescrH uint64            `json:"fp_descr_h"`
+	FPOut    uint64            `json:"fp_out"`
 	// process death / cross-check of the pipelined run against the stage-by-stage run
 	QTmpl      string   `json:"qtmpl,omitempty"` // query with placeholders for the comparison thresholds (generator only)
 	ThI        string   `json:"th_i,omitempty"`
@@ -429,24 +429,10 @@ func flat(bs [][]Entry) []Entry {
 	return r
 }
 
-// realFingerprint obtains internal_planner's fingerprint(labels) through the exported ByWithoutPlanner
-// (`without ()` keeps every label and recomputes the fingerprint).
+// realFingerprint is internal_planner's fingerprint(labels), reached through the `verif` build-tag export
+// (zz_verif_export.go): the oracle table must not depend on any stage under test.
 func realFingerprint(labels map[string]string) uint64 {
-	done := make(chan struct{})
-	defer close(done)
-	up := &upstream{batches: [][]Entry{{{Labels: cloneMapNN(labels)}}}, done: done}
-	p := &ip.ByWithoutPlanner{GenericPlanner: ip.GenericPlanner{Main: up}, By: false, Labels: nil}
-	out, err := p.Process(&shared.PlannerContext{}, nil)
-	if err != nil {
-		panic(err)
-	}
-	var fp uint64
-	for b := range out {
-		for _, e := range b {
-			fp = e.Fingerprint
-		}
-	}
-	return fp
+	return ip.Fingerprint(cloneMapNN(labels))
 }
 func cloneMapNN(m map[string]string) map[string]string {
 	r := cloneMap(m)
@@ -1215,6 +1201,19 @@ func genCase(r *rand.Rand, id int, pl *pools) Case {
 	gp.metric = kind >= 5
 	gp.unwrap = kind >= 8
 	gp.parserFn = []string{"json", "json", "json", "logfmt", "logfmt", "line_format"}[r.Intn(6)]
+	// "collapse": streams whose label sets become EQUAL under the by/without of the query, one of them losing no label,
+	// with upstream (ClickHouse) fingerprints that are not the in-process hash: the split stage is line_format, or a
+	// label_format follows the parser
+	collapse := gp.metric && r.Intn(6) == 0
+	collapseLF := false
+	if collapse {
+		if r.Intn(3) == 0 {
+			gp.parserFn = "logfmt"
+			collapseLF = true
+		} else {
+			gp.parserFn = "line_format"
+		}
+	}
 	sel := `{app="x"}`
 	var pre string
 	if r.Intn(4) == 0 {
@@ -1231,6 +1230,14 @@ func genCase(r *rand.Rand, id int, pl *pools) Case {
 	}
 	pipe := pre + bp
 	ns := r.Intn(4)
+	if collapse {
+		ns = 0
+		if collapseLF {
+			pipe += " | label_format tier=" + strconv.Quote("front")
+		} else if r.Intn(2) == 0 {
+			pipe += " |= " + strconv.Quote("")
+		}
+	}
 	for i := 0; i < ns; i++ {
 		pipe += genStage(r, &gp)
 	}
@@ -1270,11 +1277,30 @@ func genCase(r *rand.Rand, id int, pl *pools) Case {
 			bwInner += ")"
 		}
 		agg := r.Intn(3) == 0
+		if collapse {
+			if gp.unwrap && r.Intn(2) == 0 {
+				agg = false
+				bwInner = " " + pick(r, []string{"by (app)", "without (pod)"})
+				if collapseLF {
+					bwInner = " by (app,tier)"
+				}
+			} else {
+				agg = true
+				bwInner = ""
+			}
+		}
 		var aggFn, bwOuter, cmpO string
 		if agg {
 			aggFn = pick(r, aggFns)
 			if r.Intn(2) == 0 {
 				bwOuter = " " + genByWithout(r)
+			}
+			if collapse {
+				bwOuter = " " + pick(r, []string{"by (app)", "without (pod)"})
+				if collapseLF {
+					bwOuter = " by (app,tier)"
+				}
+				aggFn = pick(r, []string{"sum", "count", "max"})
 			}
 			c.Class += "+agg"
 			exactOnly = aggFn == "sum" || aggFn == "avg"
@@ -1331,6 +1357,17 @@ func genCase(r *rand.Rand, id int, pl *pools) Case {
 	for i := 0; i < nser; i++ {
 		l := pl.series[r.Intn(len(pl.series))]
 		sers = append(sers, ser{l, city.CH64([]byte(labelsKey(l)))})
+	}
+	if collapse {
+		app := pick(r, []string{"web", "api"})
+		a := map[string]string{"app": app}
+		b := map[string]string{"app": app, "pod": pick(r, []string{"p1", "p2"})}
+		sers = []ser{{a, city.CH64([]byte(labelsKey(a)))}, {b, city.CH64([]byte(labelsKey(b)))}}
+		if r.Intn(2) == 0 {
+			d := map[string]string{"app": app, "pod": "p3"}
+			sers = append(sers, ser{d, city.CH64([]byte(labelsKey(d)))})
+		}
+		c.Class += "+collapse"
 	}
 	n := r.Intn(14)
 	if r.Intn(8) == 0 {
